@@ -3,7 +3,7 @@ import io
 from .. import posecase as pc, refenc
 from . import c03
 
-LEAN_MODULES = ["PoseVerif.Props.C07", "PoseVerif.Props.C07Stream"]
+LEAN_MODULES = ["PoseVerif.Props.C07"]
 RULE = ("written files of the C01 generator; small files: every cut offset, large files: every field boundary ±1 and sampled offsets; each prefix read as bytes and as a stream, "
         "with the header cache empty / holding this header / holding a foreign header; windowed stream reads on prefixes compared with the intact file; random suffixes appended; "
         "non-trivial = distinct (file, offset, reader, cache, window)")
